@@ -287,6 +287,7 @@ def written_term_cases(ctx):
 # classical negation against a fresh positive predicate: -p written as np (with the constraint that p and np exclude each other) gives the same answer sets
 # and the same SHOWN atoms - with #show statements for the negated and for the positive signature, in every part, with primes
 NEG_RENAMED = [
+    ('#program always.\n{ p(1,2) }.\n-p(X,Y) :- not p(X,Y), X = 1, Y = 2.\ns :- not &tel { < -p(1,2) }.\nu(X) :- X = 1, not not &tel { -p(X,2) | > p(X,X+1) }.\n#show -p/2.\n#show s/0.\n#show u/1.\n', '#program always.\n{ p(1,2) }.\nnp(X,Y) :- not p(X,Y), X = 1, Y = 2.\n:- p(X,Y), np(X,Y).\ns :- not &tel { < np(1,2) }.\nu(X) :- X = 1, not not &tel { np(X,2) | > p(X,X+1) }.\n#show np/2.\n#show s/0.\n#show u/1.\n'),
     ('#program always.\n{ p }.\n-p :- not p.\nr.\n#show -p/0.\n#show r/0.\n', '#program always.\n{ p }.\nnp :- not p.\n:- p, np.\nr.\n#show np/0.\n#show r/0.\n'),
     ('#program always.\n{ p(1..2) }.\n-p(X) :- not p(X), X = 1..2.\n#show -p/1.\n', '#program always.\n{ p(1..2) }.\nnp(X) :- not p(X), X = 1..2.\n:- p(X), np(X).\n#show np/1.\n'),
     ('#program always.\n{ p(1..2) }.\n-p(X) :- not p(X), X = 1..2.\n#show p/1.\n', '#program always.\n{ p(1..2) }.\nnp(X) :- not p(X), X = 1..2.\n:- p(X), np(X).\n#show p/1.\n'),
